@@ -978,10 +978,28 @@ def run_git_stream(ctx, nscen, seeds=None):
                 check_lock_content(ctx, gw, l3, case, 'lock-after-move')
                 lock_cases.append((cq.cpair(mterm, wterm, r2term, co2, ctx_tx(tx_of([l3])), cq.copt(cq.clist(obs_locked_terms(l3)))),
                                    {**case, 'step': 'lock-after-move', 'impl_lock': l3}))
+                # ---- the branch advances by a commit that touches no module subdir: the module hashes stay, the
+                # resolved commit must still be re-recorded (locking is a function of the sources, not of the old lockfile)
+                if reftype == 'branch' and all(subdirs):
+                    v2b = dict(gw.commits[now]); v2b[('README.md',)] = b'readme only %d\n' % rng.randrange(999)
+                    c2b = gw.commit(v2b, 'c2b'); gw.publish()
+                    rc, doc, out, err = sb.cli_json(['lock', '--yes'])
+                    raw4, l4 = read_lock(sb)
+                    ctx.count('git', key=(seed, 'relock-unrelated-commit'), tags=['lock-after-unrelated-commit'])
+                    if rc != 0 or l4 is None:
+                        viol(ctx, 'lock failed after an unrelated upstream commit', {**case, 'stdout': out[:800]})
+                    else:
+                        for lm in l4['modules']:
+                            g = lm['resolved_source'].get('git')
+                            if g and (g['commit'] != c2b or lm['resolved_version'] != c2b):
+                                viol(ctx, 'lock after an upstream commit outside the module recorded %s, the ref points at %s (stale entry kept)' % (g['commit'][:12], c2b[:12]),
+                                     {**case, 'step': 'relock-unrelated-commit', 'lock': lm})
+                        check_lock_content(ctx, gw, l4, case, 'lock-after-unrelated-commit')
+                    now = c2b
                 # ---- the locked commit disappears upstream (history rewritten, force-pushed) and the cache is gone:
                 # every deploy must fail or render exactly the locked commit - repeated attempts included
                 if reftype == 'branch' and l3 is not None:
-                    v3 = dict(v2)
+                    v3 = dict(gw.commits[now])
                     for k_ in list(v3):
                         if k_[-1] == 'SKILL.md': v3[k_] = v3[k_].replace(b'-v2', b'-v3')
                     for pth, cn in v3.items(): world.write(os.path.join(gw.work, *pth), cn)
